@@ -54,7 +54,7 @@ def diff_kernel(actual, fn, model, args, panelvals):
 def terms_of(v):
     """(wrapper kinds, list of (scale, kernel term))"""
     wrap = []
-    while isinstance(v, Opaque) and v.kind in ('symmetrized', 'skew-symmetrized', 'csr'):
+    while isinstance(v, Opaque) and v.kind in ('symmetrized', 'skew-symmetrized', 'csr', 'memoryview'):
         wrap.append(v.kind)
         v = v.f['of']
     terms = []
